@@ -8,7 +8,7 @@ OPN = {0: 'none', 1: 'cancel', 2: 'resched', 3: 'reprio', 4: 'pcancel', 5: 'sche
 fams = []
 def fam(nev, o1, o2, fill=0, tier='quick', witness=False, w=1, o1b=0, tie=0):
     defs = ['NEV=%d' % nev, 'OP1=%d' % o1, 'OP2=%d' % o2, 'FILL=%d' % fill, 'OP1B=%d' % o1b, 'FILLTIE=%d' % tie] + (['WITNESS=1'] if witness else [])
-    fams.append(Family('n%d-%s%s-%s%s%s%s' % (nev, OPN[o1], '+' + OPN[o1b] if o1b else '', OPN[o2], '-fill%d' % fill if fill else '', '-tie' if tie else '', '-witness' if witness else ''),
+    fams.append(Family('n%d-%s%s-%s%s%s%s' % (nev, OPN[o1], '+' + OPN[o1b] if o1b else '', OPN[o2], '-fill%d' % fill if fill else '', {0: '', 1: '-tie', 2: '-times5mod7', 3: '-timespattern'}[tie], '-witness' if witness else ''),
                        'h_c01.c', 'h_c01', defs, tier=tier, witness=witness, weight=w, validate=4))
 fam(3, 0, 0)
 fam(3, 0, 0, witness=True)
@@ -26,6 +26,12 @@ fam(2, 1, 0, fill=5, tie=1, w=6)
 fam(1, 3, 0, fill=6, tie=1, w=4)
 fam(1, 0, 1, fill=5, tie=1, w=4)
 fam(1, 4, 0, fill=6, tie=1, w=4)
+# pattern cancel (before the run and from inside an action) over fillers with patterned, unsorted times: several matches,
+# parents and children among them, the moved last entry may rise past entries not yet visited
+for tie in (2, 3):
+    fam(1, 4, 0, fill=7, tie=tie, w=4)
+    fam(1, 0, 4, fill=7, tie=tie, w=4)
+fam(1, 4, 0, fill=9, tie=3, w=5)
 # clear after the queue has grown, then schedule again: old handles must be gone
 fam(2, 6, 0, fill=7, o1b=5, w=2)
 fam(2, 6, 1, fill=9, o1b=5, w=2)
